@@ -37,6 +37,9 @@ CHECKS = {
  "C16": ("E1-shape", "bounded-exhaustive enumeration of the identifier language (class alphabet) x roles executed on the real compiler vs. naming reference",
          "Every legal ASN.1 name of length <= 6 over the class alphabet {a,z,A,Z,0,9,-} (the conversion code branches only on lower/upper/digit/hyphen) in each role {module, type + references to it, component, alternative, enumeral, value + reference, named number}, every Rust strict/reserved/weak keyword in its legal spelling per role with hyphenated neighbours, cross-role pairs differing only by case/hyphen, and the TypeScript backend (224 k modules thorough): output parses, identifier legal and non-keyword, letter/digit sequence preserved, case class per role, identifier annotation present and equal whenever the spelling changed, references spelled like the definition.",
          "Two representatives per character class stand for the whole class (sound because the code inspects only the class). Names longer than 6 are not covered.", "§4 C16"),
+ "C19": ("E1-shape", "exhaustive enumeration of the backend configuration space, differential comparison of real compiler outputs",
+         "29 base module sets (27 feature modules of G, a module of CHOICEs with unique/duplicate/recursive/anonymous payload types and const/lazy values, a 3-module import set) x all 191 non-default RasnConfig combinations (2^4 flags x custom_imports {0,1,3} x type_annotations {default, extra derives, non-derive attributes, derives listed twice}); the projection under each configuration minus the documented delta of every enabled option must equal the default-configuration projection item by item.",
+         "syn projection trusted; opaque_open_types=false is only compared on bases without information-object machinery (where it must change nothing).", "§4 C19"),
 }
 PENDING = {}
 def main():
